@@ -14,6 +14,7 @@ import (
 	"github.com/oasisprotocol/curve25519-voi/curve"
 	"github.com/oasisprotocol/curve25519-voi/curve/scalar"
 	"github.com/oasisprotocol/curve25519-voi/zzverif/entropy"
+	"github.com/oasisprotocol/curve25519-voi/zzverif/fluent"
 	"github.com/oasisprotocol/curve25519-voi/zzverif/gen"
 	"github.com/oasisprotocol/curve25519-voi/zzverif/gx"
 	"github.com/oasisprotocol/curve25519-voi/zzverif/hist"
@@ -528,6 +529,10 @@ func (x *ctx) mixedLists(rng *rand.Rand) {
 }
 
 func runCase(r *mon.Run, c Case) {
+	if c.Kind == "fluent" {
+		fluentCheck(r)
+		return
+	}
 	if c.Kind == "entropy" {
 		entropyCase(r, c)
 		return
@@ -625,5 +630,12 @@ func main() {
 	for i := 0; i < r.Pick(6, 60); i++ {
 		entropyCase(r, Case{Kind: "entropy", Stream: fmt.Sprintf("c11/entropy/%d", i)})
 	}
+	fluentCheck(r)
 	r.Finish()
+}
+
+// fluentCheck: every "sets the receiver and returns it" method of this property's types must return its receiver
+// (package fluent).
+func fluentCheck(r *mon.Run) {
+	fluent.Check(r, Case{Kind: "fluent"}, (*curve.RistrettoPoint)(nil), (*curve.CompressedRistretto)(nil), (*curve.ExpandedRistrettoPoint)(nil), (*curve.RistrettoBasepointTable)(nil))
 }
